@@ -31,6 +31,18 @@ fn run_case<T: Elem>(case: u64, args: &Args, ev: &mut Ev, log: &mut EventLog) {
             ..Default::default()
         },
     );
+    let mut spec = spec;
+    // sometimes x and y are two views of one table (same first element, strides 1 and 2)
+    let aliased = case % 9 == 4 && T::MANT == 52;
+    if aliased {
+        let (nx, ny) = (spec.data.shape()[0], spec.data.shape()[1]);
+        let table = vh::cases::gen_alias_table::<T>(&mut rng, nx, ny, false);
+        if spec.data.ndim() != 3 {
+            spec.dynamic = true;
+        }
+        spec = spec.aliased_axes(Array1::from(table), nx, ny);
+        ev.add("aliased_axes_cases", 1);
+    }
     let x = spec.axis_x();
     let y = spec.axis_y();
     let (nx, ny) = (x.len(), y.len());
@@ -67,6 +79,16 @@ fn run_case<T: Elem>(case: u64, args: &Args, ev: &mut Ev, log: &mut EventLog) {
         if a >= x[0] && a <= x[nx - 1] && b >= y[0] && b <= y[ny - 1] {
             qx.push(a);
             qy.push(b);
+            kind.push(3);
+        }
+    }
+    if aliased {
+        // the diagonal qx == qy (bit-identical), inside both ranges
+        let hi = if x[nx - 1] < y[ny - 1] { x[nx - 1] } else { y[ny - 1] };
+        for _ in 0..10 {
+            let q = rand_in(&mut rng, x[0], hi);
+            qx.push(q);
+            qy.push(q);
             kind.push(3);
         }
     }
